@@ -159,7 +159,17 @@ def raw_tla(raw):
     return "(" + " @@ ".join("%s :> %s" % (tlc.tla_str(k), _val(v)) for k, v in raw.items()) + ")" if raw else "<<>>"
 
 
+def _complete(raw, mp):
+    """a key the mapping expects but the file lacks is made explicit, so that TLC compares instead of failing"""
+    out = dict(raw)
+    for f, k in mp.items():
+        if k not in out:
+            out[k] = ["<missing>"] if f == "previousEventIds" else "<missing>"
+    return out
+
+
 def run_tla(mp, streamed, files, loaded):
+    files = [(wf, [_complete(r, mp) for r in f]) for wf, f in files]
     return "[map |-> (%s),\n  streamed |-> {%s},\n  files |-> {%s},\n  loaded |-> {%s}]" % (
         " @@ ".join("%s :> %s" % (tlc.tla_str(k), tlc.tla_str(v)) for k, v in mp.items()),
         ", ".join("{" + ", ".join(event_tla(e) for e in j["events"]) + "}" for j in streamed),
